@@ -30,7 +30,7 @@ Your job:
 1. Read the relevant code until you understand why the property holds. The statement has several clauses; pick a clause or a code path that the changes listed above do not touch.
 2. Make a small source change (1-15 lines, in the package code under cij/, not in tests or data files unless the property is about them) that a plausible refactoring, optimisation, dependency-upgrade adaptation or well-meant bug fix could introduce, which makes the property FALSE for some inputs while (a) the package still imports and runs, and (b) the existing test suite still passes exactly as before. The baseline summary on the unchanged code is `2 failed, 66 passed, 1 error` (the 3 tests involving examples/bridgmanite/input01 fail/error - that file is intentionally empty). To save machine time run the suite only ONCE, after your change is final:  `cd {wt} && PYTHONPATH={wt} NUMBA_CACHE_DIR={wt}/.numba timeout 1500 /venv/bin/python -m pytest -q -p no:cacheprovider --timeout=900 -x -k "not bridgmanite" `  must report 0 failures (then, if you have time, the full command without -x/-k must give the baseline line).
 3. Prefer a change that needs something SPECIFIC to manifest - a particular kind of input, an unusual but legal configuration, a multi-step sequence of calls, a particular ordering, or two cooperating edits that each look harmless alone - rather than one that breaks every use at once. It must be a genuine violation of the property as stated (inside its quantifier; not of some stronger property you imagine), observable through the interfaces listed above.
-4. Write a demonstration program {wt}/demo_{pid}.py (plain Python, no pytest needed, < 150 lines, may build its own small synthetic inputs in a temporary directory, must locate the package through PYTHONPATH / its own directory, not through a hard-coded path) that exits with status 0 on the ORIGINAL code and exits non-zero (assertion failure naming what went wrong) on the CHANGED code. Verify both (`git stash` / `git stash pop`, or `git diff -- cij > patch.diff; git checkout -- cij; ...; git apply patch.diff`).
+4. Write a demonstration program {wt}/demo_{pid}.py (plain Python, no pytest needed, < 150 lines, may build its own small synthetic inputs in a temporary directory, must locate the package through PYTHONPATH / its own directory, not through a hard-coded path) that exits with status 0 on the ORIGINAL code and exits non-zero (assertion failure naming what went wrong) on the CHANGED code. Verify both with `git diff -- cij > patch.diff; git checkout -- cij; ...; git apply patch.diff` (NEVER use `git stash`: the stash is shared with other engineers' worktrees).
 5. Save the change as {wt}/patch.diff (output of `git diff -- cij` taken in the worktree with the change applied) and leave the change applied in the worktree. Do not commit.
 
 Final answer (plain text): the patch (inline), what it breaks and on which inputs it manifests (and on which it does not), why the existing tests still pass, and the exact commands + outputs showing the demo passing on the original and failing on the changed code, and the test-suite summary line after the change.'''
